@@ -80,6 +80,8 @@ func lenInterval(ec edgeCond, isList func(ssa.Value) bool) (lo, hi int64, ok boo
 
 // ruleInst: INST-1. The GPU-instancing block is emitted exactly when the model has instances, every
 // instance reaches the three accessors element-wise, and the node's own TRS does not depend on it.
+// The per-instance arrays are judged wherever they are built (the block may live in a helper or method
+// that receives the list), the guard where the block is emitted plus at the call sites of such a helper.
 func (w *world) ruleInst(a *agg) {
 	P := w.c.P
 	gpuObj := w.tpkg.Scope().Lookup("ExtGpuInstancing")
@@ -91,6 +93,7 @@ func (w *world) ruleInst(a *agg) {
 		n := ssau.NamedOf(t)
 		return n != nil && n.Obj() == gpuObj
 	}
+	checkedCallers := map[*ssa.Function]bool{}
 	for _, fn := range w.all {
 		fname := P.FuncName(fn)
 		// emission site: a value of type ExtGpuInstancing stored into a map[string]any
@@ -104,9 +107,6 @@ func (w *world) ruleInst(a *agg) {
 				emits = append(emits, mu)
 			}
 		})
-		if len(emits) == 0 {
-			continue
-		}
 		// the instance list of this function: values of type []trs.TRS (field loads or parameters)
 		isList := func(v ssa.Value) bool { return isTRSList(v.Type()) }
 		for _, mu := range emits {
@@ -287,6 +287,45 @@ func (w *world) ruleInst(a *agg) {
 					}
 				}
 			}
+			// built in a helper that receives the list: no call site may exclude a non-empty list
+			if lp, isParam := stripChange(list).(*ssa.Parameter); isParam && !checkedCallers[fn] {
+				checkedCallers[fn] = true
+				pi := -1
+				for i, p := range fn.Params {
+					if p == lp {
+						pi = i
+					}
+				}
+				within := w.fns
+				if P.IsControl(fn.Pos()) {
+					within = w.all
+				}
+				for _, site := range w.callSites(fn, within) {
+					if pi < 0 || pi >= len(site.Common().Args) {
+						continue
+					}
+					arg := site.Common().Args[pi]
+					clo, chi := int64(0), int64(-1)
+					for _, ec := range edgeConds(site.Block()) {
+						l, h, ok := lenInterval(ec, func(v ssa.Value) bool { return isTRSList(v.Type()) && w.sameValue(v, arg) })
+						if !ok {
+							continue
+						}
+						if l > clo {
+							clo = l
+						}
+						if h >= 0 && (chi < 0 || h < chi) {
+							chi = h
+						}
+					}
+					cc := fmt.Sprintf("%s→%s#instance-data-call", P.FuncName(site.Parent()), fn.Name())
+					if clo > 1 || chi >= 0 {
+						a.violate("INST-1", cc, P.Pos(site.Pos()), fmt.Sprintf("the per-instance data is built only for instance counts n ≥ %d%s: a non-empty list outside that range gets no (or empty) instance accessors", clo, map[bool]string{true: fmt.Sprintf(" and n ≤ %d", chi), false: ""}[chi >= 0]))
+					} else {
+						a.hold("INST-1", cc, P.Pos(site.Pos()), "called for every non-empty instance list")
+					}
+				}
+			}
 			switch {
 			case stores == 0:
 				a.violate("INST-1", construct, pos, "the per-instance array is never filled")
@@ -296,8 +335,8 @@ func (w *world) ruleInst(a *agg) {
 				a.hold("INST-1", construct, pos, "len(instances) elements, element i from instance i, i over the whole list")
 			}
 		})
-		// the node's own TRS does not depend on the instance count
-		if nodeObj != nil {
+		// the node's own TRS does not depend on the instance count (in the function that emits the block)
+		if nodeObj != nil && len(emits) > 0 {
 			ssau.AllInstrs(fn, func(in ssa.Instruction) {
 				st, ok := in.(*ssa.Store)
 				if !ok {
@@ -325,7 +364,7 @@ func (w *world) ruleInst(a *agg) {
 			})
 		}
 	}
-	w.c.R.Floor("INST-1", 5)
+	w.c.R.Floor("INST-1", 3)
 }
 
 // fullRangeIndex: idx is the induction value of a loop that runs 0…len(list)-1 (range or counted form).
